@@ -451,6 +451,26 @@ impl TryFrom<&mut Peekable<Lexer>> for ParserNode {
                         }
                         Type::JumpLinkR(inst) => {
                             let reg1 = lex.get_reg()?;
+                            // `jalr rs` on its own: the line (or the input)
+                            // ends here, and what ends it is not part of the
+                            // instruction
+                            let line_is_over = match lex.peek_any() {
+                                Ok(t) => matches!(
+                                    t.token_type(),
+                                    TokenType::Newline | TokenType::Comment(_)
+                                ),
+                                Err(LexError::UnexpectedEOF) => true,
+                                Err(_) => false,
+                            };
+                            if line_is_over {
+                                return Ok(ParserNode::new_jump_link_r(
+                                    With::new(inst, next_node.clone()),
+                                    With::new(Register::X1, next_node.clone()),
+                                    reg1,
+                                    With::new(Imm::new(0), next_node),
+                                    lex.raw_token,
+                                ));
+                            }
                             let next = lex.get_any()?;
                             return if let Ok(rs1) = next.as_reg() {
                                 let imm = lex.get_imm()?;
@@ -489,17 +509,6 @@ impl TryFrom<&mut Peekable<Lexer>> for ParserNode {
                                     With::new(inst, next_node.clone()),
                                     reg1,
                                     rs1,
-                                    With::new(Imm::new(0), next_node),
-                                    lex.raw_token,
-                                ))
-                            } else if matches!(
-                                next.token_type(),
-                                TokenType::Newline | TokenType::Comment(_)
-                            ) {
-                                Ok(ParserNode::new_jump_link_r(
-                                    With::new(inst, next_node.clone()),
-                                    With::new(Register::X1, next_node.clone()),
-                                    reg1,
                                     With::new(Imm::new(0), next_node),
                                     lex.raw_token,
                                 ))
